@@ -83,6 +83,7 @@ def seeded():
     before.update(_read_eval(f"{V}/seeded/ROUND7_eval_before_strengthening.txt"))
     before.update(_read_eval(f"{V}/seeded/ROUND8_eval_before_strengthening.txt"))
     before.update(_read_eval(f"{V}/seeded/ROUND9_eval_before_strengthening.txt"))
+    before.update(_read_eval(f"{V}/seeded/ROUND10_eval_before_strengthening.txt"))
     now = _read_eval(f"{V}/seeded/EVAL_current.txt")
     out = ["| change | what it does (author's words, first line) | check at the time it was seeded | check now (rules that fire) |", "|---|---|---|---|"]
     nb = nn = n = 0
@@ -120,7 +121,7 @@ def seeded():
 
 def benign():
     before = {}
-    for fn in ("BENIGN_eval_before_repair.txt", "BENIGN2_eval_before_repair.txt", "BENIGN3_eval_before_repair.txt", "BENIGN4_eval_before_repair.txt", "BENIGN5_eval_before_repair.txt", "BENIGN6_eval_before_repair.txt", "BENIGN7_eval_before_repair.txt", "BENIGN8_eval_before_repair.txt", "BENIGN9_eval_before_repair.txt"):
+    for fn in ("BENIGN_eval_before_repair.txt", "BENIGN2_eval_before_repair.txt", "BENIGN3_eval_before_repair.txt", "BENIGN4_eval_before_repair.txt", "BENIGN5_eval_before_repair.txt", "BENIGN6_eval_before_repair.txt", "BENIGN7_eval_before_repair.txt", "BENIGN8_eval_before_repair.txt", "BENIGN9_eval_before_repair.txt", "BENIGN10_eval_before_repair.txt"):
         pth = f"{V}/benign/{fn}"
         if os.path.exists(pth):
             for line in open(pth):
